@@ -80,10 +80,17 @@ static void body(void *arg)
     t->done = 1;
 }
 static const size_t CLASSES[] = { 16384, 16384 + 8, 16384 - 8, 32768 + 8, 32776 + 16, 65536 - 64, 65536 + 1, 4096 * 3 + 24, 20011, 99991, 262144 + 40, 1048576 + 8 };
+/* one attribute object re-used for all units the primary ULT creates: user stack, then "no
+ * user stack, this size" (set_stack with a null address), then a user stack again, ... */
+static ABT_thread_attr g_rattr = ABT_THREAD_ATTR_NULL;
 static void create_one(tinfo_t *t)
 {
     ABT_thread_attr attr;
-    CHK(ABT_thread_attr_create(&attr));
+    int reuse = t->creator == 0 && g_rattr != ABT_THREAD_ATTR_NULL;
+    if (reuse)
+        attr = g_rattr;
+    else
+        CHK(ABT_thread_attr_create(&attr));
     if (t->user) {
         t->ubuf = (char *)malloc(t->req + 2 * GUARD + 64);
         memset(t->ubuf, 0x5a, t->req + 2 * GUARD + 64);
@@ -92,12 +99,15 @@ static void create_one(tinfo_t *t)
         base += (uintptr_t)(8 * (t->id & 1));
         t->ustack = (char *)base;
         CHK(ABT_thread_attr_set_stack(attr, t->ustack, t->req));
+    } else if (reuse) {
+        CHK(ABT_thread_attr_set_stack(attr, NULL, t->req));
     } else {
         CHK(ABT_thread_attr_set_stacksize(attr, t->req));
     }
     int e = rnd(g_nes);
     CHK(ABT_thread_create(g_pool[e], body, t, attr, &t->th));
-    CHK(ABT_thread_attr_free(&attr));
+    if (!reuse)
+        CHK(ABT_thread_attr_free(&attr));
 }
 static void creator_ult(void *a)
 {
@@ -428,6 +438,9 @@ static void scenario(const char *name, uint64_t seed)
         if (t->creator == 1 && !have_ult)
             t->creator = 0;
     }
+    g_rattr = ABT_THREAD_ATTR_NULL;
+    if (rnd(2))
+        CHK(ABT_thread_attr_create(&g_rattr));
     pthread_t ext;
     ABT_thread cu = ABT_THREAD_NULL;
     if (have_ext)
@@ -441,6 +454,8 @@ static void scenario(const char *name, uint64_t seed)
         pthread_join(ext, NULL);
     if (have_ult)
         CHK(ABT_thread_free(&cu));
+    if (g_rattr != ABT_THREAD_ATTR_NULL)
+        CHK(ABT_thread_attr_free(&g_rattr));
     /* all units alive at the same time */
     for (int i = 1; i <= g_nt; i++)
         while (!T[i].alive) {
